@@ -948,3 +948,39 @@ def _norm(v):
             return _real_int(v)
         return round(v, 6)
     return v
+
+
+# --------------------------------------------------------------------------
+# second opinion on one-shot queries: re-decide with an independent solver binary
+# --------------------------------------------------------------------------
+def second_opinion(solver, timeout_s=120, binaries=("/usr/bin/z3",)):
+    """Dump the assertions of a z3.Solver as SMT-LIB2 and re-decide them with
+    other solver binaries.  Returns {binary: 'sat'|'unsat'|'unknown'|'error'}."""
+    import os
+    import subprocess
+    import tempfile
+
+    text = "(set-logic ALL)\n" + solver.to_smt2()
+    fd, path = tempfile.mkstemp(suffix=".smt2", dir="/dev/shm" if os.path.isdir("/dev/shm") else None)
+    out = {}
+    try:
+        with os.fdopen(fd, "w") as f:
+            f.write(text)
+        for b in binaries:
+            if not os.path.exists(b) and "/" in b:
+                out[b] = "missing"
+                continue
+            cmd = [b, f"-T:{timeout_s}", path] if b.endswith("z3") else [b, f"--tlimit={timeout_s * 1000}", path]
+            try:
+                r = subprocess.run(cmd, capture_output=True, text=True, timeout=timeout_s + 10)
+                o = (r.stdout + r.stderr).strip()
+                if "(error" in o or "error" in o.lower() and "unsat" not in o and "sat" not in o:
+                    out[b] = "error"
+                else:
+                    first = o.splitlines()[0].strip() if o else "unknown"
+                    out[b] = first if first in ("sat", "unsat", "unknown") else "error"
+            except subprocess.TimeoutExpired:
+                out[b] = "unknown"
+    finally:
+        os.unlink(path)
+    return out
